@@ -6,7 +6,8 @@ Mirrors (crates/runtime/src):
                call_metamap_binary_op(_rhs), call_object_arithmetic_op, call_object_binary_op},
                run_less … run_not_equal, run_overridden_comparison_op, run_negate, run_not, run_index,
                run_index_assign, run_access_inner, run_access_assign, call_callable (@call), run_size,
-               run_make_iterator, run_iterator_next, make_iterator (public), run_display, run_debug_op,
+               run_make_iterator, run_iterator_next, make_iterator (public; `iterator.to_list`,
+               `iterator.reversed` with core_lib/iterator/adaptors.rs Reversed), run_display, run_debug_op,
                run_string_push (result must be a String)
   types/map.rs        KMap::display, KMap::meta_type
   types/value.rs      type_as_string
